@@ -467,10 +467,11 @@ void getOffsetAndCount(const MultiTag &tag, const DataArray &array, const vector
         } else {
             extent.resize(offset.size(), 0.0);
         }
-        // add pos/extents if missing
+        // add pos/extents if missing: such dimensions run from the first to the last element of the data
+        size_t specified = offset.size();
         while (offset.size() < dimensions.size()) {
             offset.push_back(get<0>(max_extents[offset.size()]));
-            extent.push_back(get<1>(max_extents[extent.size()]));
+            extent.push_back(get<1>(max_extents[extent.size()]) - offset.back());
         }
         // throw away info, if not needed
         while (offset.size() > dimensions.size()) {
@@ -484,7 +485,8 @@ void getOffsetAndCount(const MultiTag &tag, const DataArray &array, const vector
                 end_positions[dim_index] = vector<double>(indices.size());
             }
             start_positions[dim_index][idx] = offset[dim_index];
-            end_positions[dim_index][idx] = offset[dim_index] + extent[dim_index];
+            end_positions[dim_index][idx] = dim_index < specified ? offset[dim_index] + extent[dim_index]
+                                                                  : get<1>(max_extents[dim_index]);
         }
     }
 
